@@ -541,7 +541,7 @@ C13_RULE = ("cases = valid programs (corpus, generator mix, nesting depth 20..30
             "combinations) under catch_unwind in a forked child; artefact hashes (Debug of ir::Program, Debug of both bc::Program, print_mc bytes) are compared between consecutive compilations, between "
             "compilations separated by other compilations in the same process, and - for a shared index range compiled by all 16 worker processes started with setarch -R - across processes; the bytecode held by "
             "each executor must equal the public translate output; each executor is executed six times on fresh contexts (plain, budget 7, output refused at event 1, plain, budget 2^40, plain) and the plain logs compared; "
-            "allocator calls of compilation are measured along seven parameterised families for n = 4..64 and may grow by at most 32x + 20000 per doubling. Runs in the release and the debug-assertion/overflow-check profile. "
+            "allocator calls and allocated bytes of compilation are measured along 17 fixed parameterised families (n = 4..64) and along generated chain families (a random pointer-disciplined stage repeated n = 4, 8, 16, 32 times, at top level or inside an input-driven loop), every compilation in a forked child under a 6 GiB address-space limit and a 60 s watchdog; a compilation that does not finish, or two consecutive size steps on which a measure grows by more than (n1/n0)^5 plus a fixed slack, is a violation (one step above the envelope followed by flat cost is a bounded one-off, not growth). Runs in the release and the debug-assertion/overflow-check profile. "
             "distinct_nontrivial counts distinct (program, width) with a loop.")
 
 
@@ -937,8 +937,8 @@ def check_c13(tier, seed):
     return finish("C13", tier, seed, "exploration", merged, t0, C13_RULE,
                   ["machine code embeds absolute addresses of runtime functions: processes are started without ASLR (setarch -R) so equal code means equal bytes",
                    "std HashMap seeds differ per map instance and per process, which is the perturbation the determinism claim is tested against",
-                   "'super-polynomial blow-up' is restated as a growth-ratio bound on allocator calls along parameterised families; wall-clock is only a watchdog"],
-                  floors=[("artefact_keys_compared_across_processes", 100), ("min_processes_per_key", 3), ("growth_ratios_checked", 20), ("repeated_executions", 1000), ("distinct_nontrivial", 50)])
+                   "'super-polynomial blow-up' is restated as a polynomial (degree 5) envelope on allocator calls and allocated bytes along fixed and generated program families of up to ~3000 characters, plus completion within 60 s / 6 GiB; wall-clock is only a watchdog, and on the unchanged tree every family member compiles in well under 0.5 s"],
+                  floors=[("artefact_keys_compared_across_processes", 100), ("min_processes_per_key", 3), ("growth_ratios_checked", 20), ("families_measured", 17), ("random_families_measured", 500), ("repeated_executions", 1000), ("distinct_nontrivial", 50)])
 
 
 def main_for(prop, tier):
@@ -1006,7 +1006,7 @@ def replay(path):
         "smallvec_history": lambda: [binary, "c18replay", "--n", str(v["n"]), "--tracked", "true" if v["tracked"] else "false", "--hist-seed", str(v["hist_seed"]), "--index", str(v["index"]), "--ops", str(v["ops"])],
         "bytecode": lambda: [binary, "c11replay", "--code", v["program"], "--bits", str(v["bits"]), "--input-hex", v.get("input_hex", "")],
         "compile": lambda: [binary, "c13replay", "--code", v.get("program", ""), "--bits", str(v.get("bits", 8))],
-        "growth": lambda: [binary, "c13growth", "--family", v.get("family", "all")],
+        "growth": lambda: [binary, "c13growth", "--family", v.get("family", "all"), "--seed", str(v.get("case_seed", 1)), "--index", str(v.get("index", 0))],
     }
     if kind in simple:
         r = subprocess.run(simple[kind]() + ["--replay-path", path], env=ENV)
